@@ -9,7 +9,7 @@
     list of TCP segments the connection will deliver. *)
 From Coq Require Import List NArith Bool.
 From Tongo Require Import Lib.Bits Spec.AdnlSpec Model.AdnlT
-  Proofs.AdnlTP Proofs.AdnlTP2 Proofs.AdnlTP3 Proofs.AdnlTP4 Proofs.AdnlTP5.
+  Proofs.AdnlTP Proofs.AdnlTP2 Proofs.AdnlTP3 Proofs.AdnlTP4 Proofs.AdnlTP5 Proofs.AdnlTP6 Proofs.AdnlHistory.
 Import ListNotations.
 Local Open Scope N_scope.
 
@@ -307,3 +307,51 @@ Example C11_example_locked :
   cs_owner st = None /\
   AdnlT.recv_all toyH N toy_next [cs_wire st] 5 = ([[10; 20; 30]; [7]], PEof).
 Proof. vm_compute. split; reflexivity. Qed.
+
+(** Connection layer over time (Connection.reader, reconnect, Responses).
+    A session continues for as long as packets flow: if no gap between arrivals
+    reaches reconnectTimeout (10 s) and the transport reports no error, the
+    reader is still running after any number of packets / any total duration
+    and has delivered every data packet in order (pongs and auth nonces are
+    consumed). *)
+Theorem C11_session_continues :
+  forall evs elapsed,
+  Forall (fun a => gap_of a < reconnect_timeout_ms /\ is_closed a = false) evs ->
+  reader_run false elapsed evs = (data_packets evs, SRunning).
+Proof. exact session_continues. Qed.
+
+(** nothing but a silence of reconnectTimeout or an error ends a session *)
+Theorem C11_session_end_cause :
+  forall evs elapsed ps e,
+  reader_run false elapsed evs = (ps, e) -> e <> SRunning ->
+  exists a, In a evs /\
+    ((e = STimeout /\ reconnect_timeout_ms <= gap_of a) \/ (e = SClosed /\ is_closed a = true)).
+Proof. exact session_end_cause. Qed.
+
+Theorem C11_reader_until_closed :
+  forall pre g rest elapsed,
+  Forall (fun a => gap_of a < reconnect_timeout_ms /\ is_closed a = false) pre ->
+  g < reconnect_timeout_ms ->
+  reader_run false elapsed (pre ++ AClosed g :: rest) = (data_packets pre, SClosed).
+Proof. exact reader_until_closed. Qed.
+
+(** Responses() is one channel for the lifetime of the Connection: whatever
+    the reader of ANY session delivers reaches the application that took the
+    channel once, in session order. *)
+Theorem C11_responses_same_channel :
+  forall st sessions k,
+  app_received (conn_run st false k sessions) =
+  flat_map (fun evs => fst (reader_run st 0 evs)) sessions.
+Proof. exact responses_same_channel. Qed.
+
+(** the two rejected designs (Proofs/AdnlHistory.v) *)
+Theorem C11_single_timer_refuted :
+  reader_run false 0 steady = (data_packets steady, SRunning) /\
+  snd (reader_run true 0 steady) = STimeout /\
+  length (fst (reader_run true 0 steady)) = 19%nat.
+Proof. exact (proj2 single_timer_refuted). Qed.
+
+Theorem C11_chan_per_session_refuted :
+  app_received (conn_run false false 0 two_sessions) = [pkt 1; pkt 2] /\
+  app_received (conn_run false true 0 two_sessions) = [pkt 1].
+Proof. exact chan_per_session_refuted. Qed.
